@@ -714,6 +714,9 @@ impl<'tcx> Cx<'tcx> {
                             ("sp", ji(self.span(sp))),
                         ]));
                     }
+                    StatementKind::StorageDead(l) => {
+                        stmts.push(J::Obj(vec![("k", js("dead")), ("l", ji(l.as_usize()))]));
+                    }
                     StatementKind::Intrinsic(_) => {
                         stmts.push(J::Obj(vec![("k", js("intrinsic")), ("sp", ji(self.span(sp)))]));
                     }
